@@ -31,7 +31,14 @@ import (
 	"verif/harness/internal/vterm"
 )
 
-const verifRoot = "/verif"
+// verifRoot is /verif; background sweeps started from a snapshot (vp run) set
+// VERIF_ROOT to the snapshot directory so that they do not disturb /verif.
+var verifRoot = func() string {
+	if r := os.Getenv("VERIF_ROOT"); r != "" {
+		return r
+	}
+	return "/verif"
+}()
 
 func main() {
 	if len(os.Args) < 2 {
